@@ -416,7 +416,13 @@ func gen(r *hv.Rng, i int, tier string) (string, hv.Val) {
 	if r.Chance(1, 3) { // the two hellos carry most of the parsing logic
 		mt = 1 + r.Intn(2)
 	}
-	switch k := r.Intn(20); {
+	switch k := r.Intn(26); {
+	case k >= 20: // structured truncations / off-by-one inner lengths with outer lengths fixed up
+		b, flag := genTrunc(r, mt)
+		if r.Chance(1, 8) {
+			flag = !flag
+		}
+		return "trunc-" + mtName[mt], hv.L{hv.I(2), hv.I(mt), hv.Bool(flag), b}
 	case k < 8: // round trip
 		f, flag, nonwf := genFields(r, mt)
 		cl := "rt-" + mtName[mt]
@@ -448,5 +454,5 @@ func gen(r *hv.Rng, i int, tier string) (string, hv.Val) {
 }
 
 func main() {
-	hv.Main(&hv.Spec{Prop: "C45", Gen: gen, Impl: impl, NQuick: 40000, NThorough: 2000000})
+	hv.Main(&hv.Spec{Prop: "C45", Gen: gen, Impl: impl, NQuick: 36000, NThorough: 2000000})
 }
